@@ -119,7 +119,7 @@ class Rule:
                             try:
                                 datum = v(datum)
                                 break
-                            except TypeError:
+                            except (TypeError, ValueError):
                                 pass
                     datum_path = DataPath(*datum_path)
                     set_datum(data_copy, datum_path, datum)
